@@ -369,7 +369,13 @@ class C04(Prop):
                         live += [1] * len(run.parked)
                         aged = run.the_eval(op[1])
                         tw = run.twin()
-                        if live or tw is None:
+                        tq = [q for q in plan["pool"]["queries"] if q["id"] == op[1]]
+                        if tq and not (_vars_of(tq[0]) <= set(tq[0].get("sel", []))):
+                            # `the` is only specified for descriptions in which every variable is selected (C06):
+                            # with an unselected variable the number of "solutions" is a matter of row multiplicity
+                            sim.count("probe:the_not_judged_unselected_variable")
+                            sig.append(("probe_the", "unselected-var"))
+                        elif live or tw is None:
                             sig.append(("probe_the", "not-judged"))
                         else:
                             ref = run.the_eval(op[1], pool=tw, quiet=True)
